@@ -72,7 +72,7 @@ def scenarios(r, n):
 
 
 def run():
-    chk = Check("C11", props_modules=["GFO.Props.C11", "GFO.Gen.MemGenCheck"], gen_steps=(translators.gen_memory,))
+    chk = Check("C11", props_modules=["GFO.Props.C11", "GFO.Gen.MemGenCheck", "GFO.Gen.ConvGenCheck"], gen_steps=(translators.gen_memory, translators.gen_converter))
     chk.build_and_audit()
     r = C.rng("C11")
     quick = C.tier() != "thorough"
